@@ -2,11 +2,8 @@
   CB.Lemmas.C17Div — `RadixDivisionParams::encode_limbs`: the limb-division loop and the
   32-limb large-divisor loop write the zero-padded expansion.
 
-  The loop is proved for a generic "is the top quotient limb below `div_limb`?" test `tst`:
-    * `tst top := top < div_limb`                      — the intended / repaired test (`…R` functions)
-    * `tst top := (top << lshift) wrapping < div_limb` — the code as written (`smallLoop`); it agrees
-      with the intended test on every word when `lshift = 0` (radix 3, 9, 10, 19, 23, 29, 30) and can
-      differ otherwise (finding C17-encode-wrapped-shift).
+  The loop is proved for a generic test `tst` that decides `top < div_limb` on words; the code's test is
+  `plainTest` (`limbs[limb_count - 1] < div_limb`).
   `div2by1` and `div_rem_vartime_in_place` are value-level in the model (exactness: C02).
 -/
 import CB.Lemmas.C17Shift
@@ -69,24 +66,20 @@ def encodeLimbsT (tst : Nat → Prop) [DecidablePred tst] (p : DivParams) (limbs
     if limbs.length > LARGE then largeLoopT tst p limbs.length limbs outLen [] else (limbs, outLen, [])
   smallLoopT tst p (st.2.1 + 1) st.1 0 st.2.1 st.2.2
 
-/-- the test as written: `limbs[limb_count - 1] << lshift < div_limb` with a wrapping shift -/
-def wrapTest (p : DivParams) (top : Nat) : Prop := (top * 2 ^ p.shift) % B < p.divisor
-instance (p : DivParams) : DecidablePred (wrapTest p) := fun _ => Nat.decLt _ _
-
-/-- the test as intended (and as in the proposed repair): `limbs[limb_count - 1] < div_limb` -/
+/-- the test of the code: `limbs[limb_count - 1] < div_limb` -/
 def plainTest (p : DivParams) (top : Nat) : Prop := top < p.divisor
 instance (p : DivParams) : DecidablePred (plainTest p) := fun _ => Nat.decLt _ _
 
 theorem smallLoop_succ (p : DivParams) (f : Nat) (limbs : List Nat) (hi outIdx : Nat) (acc : List Nat) :
     smallLoop p (f + 1) limbs hi outIdx acc =
-      (let st := stepT (wrapTest p) p limbs hi
+      (let st := stepT (plainTest p) p limbs hi
        let k := min p.digitsLimb outIdx
        let acc := emitDigits p.radix k st.2.2 acc
        let outIdx := outIdx - k
        if outIdx = 0 then acc else smallLoop p f st.1 st.2.1 outIdx acc) := rfl
 
 theorem smallLoop_eq_T (p : DivParams) : ∀ (f : Nat) (limbs : List Nat) (hi outIdx : Nat) (acc : List Nat),
-    smallLoop p f limbs hi outIdx acc = smallLoopT (wrapTest p) p f limbs hi outIdx acc := by
+    smallLoop p f limbs hi outIdx acc = smallLoopT (plainTest p) p f limbs hi outIdx acc := by
   intro f
   induction f with
   | zero => intro _ _ _ _; rfl
@@ -111,7 +104,7 @@ theorem largeLoop_succ (p : DivParams) (f : Nat) (limbs : List Nat) (outIdx : Na
       else (limbs, outIdx, acc)) := rfl
 
 theorem largeLoop_eq_T (p : DivParams) : ∀ (f : Nat) (limbs : List Nat) (outIdx : Nat) (acc : List Nat),
-    largeLoop p f limbs outIdx acc = largeLoopT (wrapTest p) p f limbs outIdx acc := by
+    largeLoop p f limbs outIdx acc = largeLoopT (plainTest p) p f limbs outIdx acc := by
   intro f
   induction f with
   | zero => intro _ _ _; rfl
@@ -120,15 +113,11 @@ theorem largeLoop_eq_T (p : DivParams) : ∀ (f : Nat) (limbs : List Nat) (outId
     rw [largeLoop_succ, largeLoopT]
     simp only [ih, smallLoop_eq_T]
 
-/-- the model of the code as written is the generic loop with the wrapping test -/
+/-- the model of the code is the generic loop with the plain test -/
 theorem encodeLimbs_eq_T (p : DivParams) (limbs : List Nat) (outLen : Nat) :
-    encodeLimbs p limbs outLen = encodeLimbsT (wrapTest p) p limbs outLen := by
+    encodeLimbs p limbs outLen = encodeLimbsT (plainTest p) p limbs outLen := by
   unfold encodeLimbs encodeLimbsT
   simp only [largeLoop_eq_T, smallLoop_eq_T]
-
-/-- `encode_limbs` with the repaired test `limbs[limb_count - 1] < div_limb` -/
-def encodeLimbsR (p : DivParams) (limbs : List Nat) (outLen : Nat) : List Nat :=
-  encodeLimbsT (plainTest p) p limbs outLen
 
 /-! ### parameters -/
 
@@ -589,36 +578,15 @@ theorem encodeLimbsT_spec {tst : Nat → Prop} [DecidablePred tst] {p : DivParam
     rw [smallLoopT_spec hg htst _ _ _ _ _ (by omega) hw hDpos]
     simp
 
-/-- the repaired encoder is correct for every radix entry, limb count and value -/
-theorem encodeLimbsR_spec {p : DivParams} (hg : GoodParams p) {limbs : List Nat} (hw : WF limbs)
+/-- `RadixDivisionParams::encode_limbs` is correct for every radix entry, limb count and value -/
+theorem encodeLimbs_spec {p : DivParams} (hg : GoodParams p) {limbs : List Nat} (hw : WF limbs)
     (outLen : Nat) :
-    encodeLimbsR p limbs outLen = (digitsPad p.radix outLen (val limbs)).map digitChar := by
+    encodeLimbs p limbs outLen = (digitsPad p.radix outLen (val limbs)).map digitChar := by
+  rw [encodeLimbs_eq_T]
   apply encodeLimbsT_spec hg _ hw
   intro top _
   unfold plainTest
   rw [hg.2.2.2.2.2.2.2.1]
-
-/-- the code as written is correct whenever the normalising shift is zero
-(radix 3, 9, 10, 19, 23, 29, 30): the wrapping shift is then the identity -/
-theorem encodeLimbs_spec_shift0 {p : DivParams} (hg : GoodParams p) (h0 : p.shift = 0)
-    {limbs : List Nat} (hw : WF limbs) (outLen : Nat) :
-    encodeLimbs p limbs outLen = (digitsPad p.radix outLen (val limbs)).map digitChar := by
-  rw [encodeLimbs_eq_T]
-  apply encodeLimbsT_spec hg _ hw
-  intro top htop
-  unfold wrapTest
-  rw [hg.2.2.2.2.2.2.2.1, h0, Nat.pow_zero, Nat.mul_one, Nat.mod_eq_of_lt htop]
-
-/-- `radix_encode_limbs_mut_to_string` with the repaired `encode_limbs` -/
-def encodeToStringR (radix : Nat) (limbs : List Nat) : Except Err (List Nat) :=
-  if ¬ (radixMin ≤ radix ∧ radix ≤ radixMax) then .error .panic
-  else if isPow2 radix then
-    let bits := trailingZeros radix
-    let size := (limbs.length * 64 + bits - 1) / bits
-    .ok (skipZeros (encodeByShifting radix limbs size))
-  else match forRadix radix with
-    | .error e => .error e
-    | .ok p => .ok (skipZeros (encodeLimbsR p limbs (limbs.length * (p.digitsLimb + 1))))
 
 /-- the radices whose limb divisor `radix^ilog(radix)` needs no normalising shift -/
 theorem shift0_radices : ∀ r ∈ [3, 9, 10, 19, 23, 29, 30],
